@@ -274,6 +274,17 @@ def twice(src):
     except SyntaxError: return None
     return out
 
+def twice_defs(src):
+    """the seed body in two different functions: each site's local bindings live in their own scope, so a binding lost at one site is not masked by the other"""
+    head, body = split_head(src)
+    if not body.strip(): return None
+    if not body.endswith("\n"): body += "\n"
+    ind = textwrap.indent(body, "    ")
+    out = head + "def vf_site_a(param_a=None):\n" + ind + "\nVF_BETWEEN_SITES = 0\n\ndef vf_site_b(param_a=None):\n" + ind
+    try: compile(out, "<twice-defs>", "exec")
+    except SyntaxError: return None
+    return out
+
 class _ReverseKeywords(cst.CSTTransformer):
     """f(a, k1=1, k2=2) -> f(a, k2=2, k1=1): the keyword arguments of every call in reverse order (positional and */** arguments stay)"""
     def leave_Call(self, o, u):
@@ -326,3 +337,12 @@ def mixed_imports(src):
     try: compile(out, "<mixed>", "exec")
     except SyntaxError: return None
     return out
+
+def legacy_encoding(src, codec="cp1252"):
+    """the same program in a declared legacy source encoding (PEP 263 cookie) with non-ASCII text in a comment and a string"""
+    if src.startswith("from __future__") or not src.isascii(): return None
+    text = f"# -*- coding: {codec} -*-\n# Ángel résumé\nVF_LEGACY = 'café'\n" + src
+    try:
+        data = text.encode(codec); compile(data, "<legacy>", "exec")
+    except (UnicodeEncodeError, SyntaxError, ValueError): return None
+    return data
